@@ -56,9 +56,11 @@ func (c *WhipClient) Init(username string, perms []string) {
 	c.permissions = perms
 }
 
+// Permissions returns the client's permissions.  They are set once by
+// Init, before the client is made visible in its group, and never change;
+// this is called with the group locked, so it must not take c.mu, which
+// Close holds while it calls into the group.
 func (c *WhipClient) Permissions() []string {
-	c.mu.Lock()
-	defer c.mu.Unlock()
 	return c.permissions
 }
 
